@@ -12,15 +12,15 @@
    kept); [valid] are the preconditions of the std operations (positions within the vector, pop on non-empty);
    arguments never alias the vector's own elements (values are passed by value in the model).
 
-   Gap, stated at full strength and refuted: insert of ZERO elements is not a no-op in the code -
-   prepare_for_insert(index, 0) executes data[i] = std::move(data[i]) for every constructed i >= index.  The
-   refinement therefore carries the side condition "self-move-assignment of the element type is the identity
-   (int, SwissString, nested ReusableVector) or the sequence has no zero-length insert"; without it the statement
-   is false (c12_zero_insert_refuted, element = libstdc++ std::basic_string; replayed on the real code by
-   checks/c12.py, finding zero-insert-selfmove).
+   No side condition on the element type any more: since fix 5fb90d9 prepare_for_insert returns early for
+   count == 0 (regenerated as pfi_zero_cond / pfi_zero_ret; the bridge lemmas b_pfi_zero_cond / b_pfi_zero_ret and
+   the translator target re-open if the early return is removed), so an insert of zero elements moves nothing and
+   in particular never self-move-assigns an element.  The refinement holds for every mva / mvc / smv, including a
+   destructive self-move (libstdc++ std::basic_string): Example c12_zero_insert_noop is the former counterexample.
 
    Not covered by theorems (monitored on the real classes only): SwissString against std::string, the string /
-   nested element capacities inside a rebuilt vector, protobuf messages, space_allocated of the real resource.
+   nested element capacities inside a rebuilt vector, protobuf messages (a rebuilt message equals a fresh one:
+   has-bits, ByteSizeLong, serialisation - regular monitor since fix 6344245), space_allocated of the real resource.
    c12_manager_cycle states what the code guarantees for a rebuild: capacity >= every constructed slot; capacity
    that was reserved but never constructed is NOT kept by a rebuild (metadata.capacity = max(_constructed_size, .)). *)
 From Coq Require Import ZArith List Bool.
@@ -30,7 +30,6 @@ Import ListNotations.
 (* 1. same observable contents as std::vector, for every operation sequence on one vector ... *)
 Theorem c12_refines_list : forall (mva : Z -> Z -> Z) (mvc smv : Z -> Z) ops s,
   wf s -> valid (abs s) ops = true ->
-  ((forall v, smv v = v) \/ forallb (fun o => negb (zero_insert o)) ops = true) ->
   abs (run mva mvc smv s ops) = fold_left spec_step ops (abs s).
 Proof. exact rv_refines_list. Qed.
 Print Assumptions c12_refines_list.
@@ -38,7 +37,6 @@ Print Assumptions c12_refines_list.
 (* ... and on two vectors sharing a resource with swap, copy-assignment and move-assignment *)
 Theorem c12_refines_list2 : forall (mva : Z -> Z -> Z) (mvc smv : Z -> Z) ops a b,
   wf a -> wf b -> valid2 (abs a, abs b) ops = true ->
-  ((forall v, smv v = v) \/ forallb (fun o => negb (zero_insert2 o)) ops = true) ->
   (abs (fst (run2 mva mvc smv (a, b) ops)), abs (snd (run2 mva mvc smv (a, b) ops))) =
   fold_left spec_step2 ops (abs a, abs b).
 Proof. exact rv_refines_list2. Qed.
@@ -49,7 +47,6 @@ Print Assumptions c12_refines_list2.
       exactly the constructed elements *)
 Theorem c12_inv : forall (mva : Z -> Z -> Z) (mvc smv : Z -> Z) ops s,
   wf s -> valid (abs s) ops = true ->
-  ((forall v, smv v = v) \/ forallb (fun o => negb (zero_insert o)) ops = true) ->
   let s' := run mva mvc smv s ops in
   size s' <= csize s' /\ csize s' <= cap s' /\ err s' = false /\
   (forall j, j < csize s' -> exists v, cells s' j = Con v) /\ (forall j, csize s' <= j -> cells s' j = Raw) /\
@@ -59,7 +56,6 @@ Print Assumptions c12_inv.
 
 Theorem c12_inv2 : forall (mva : Z -> Z -> Z) (mvc smv : Z -> Z) ops a b,
   wf a -> wf b -> valid2 (abs a, abs b) ops = true ->
-  ((forall v, smv v = v) \/ forallb (fun o => negb (zero_insert2 o)) ops = true) ->
   wf (fst (run2 mva mvc smv (a, b) ops)) /\ wf (snd (run2 mva mvc smv (a, b) ops)).
 Proof. exact rv_inv2. Qed.
 Print Assumptions c12_inv2.
@@ -76,7 +72,6 @@ Print Assumptions c12_clear_keeps_capacity.
 (* no operation sequence ever shrinks the capacity or the number of constructed elements *)
 Theorem c12_capacity_never_shrinks : forall (mva : Z -> Z -> Z) (mvc smv : Z -> Z) ops s,
   wf s -> valid (abs s) ops = true ->
-  ((forall v, smv v = v) \/ forallb (fun o => negb (zero_insert o)) ops = true) ->
   cap s <= cap (run mva mvc smv s ops) /\ csize s <= csize (run mva mvc smv s ops).
 Proof. exact rv_capacity_never_shrinks. Qed.
 Print Assumptions c12_capacity_never_shrinks.
@@ -84,7 +79,6 @@ Print Assumptions c12_capacity_never_shrinks.
 (* 4. destroying the vector after any history balances constructors and destructors and leaves only raw storage *)
 Theorem c12_ctor_dtor_balance : forall (mva : Z -> Z -> Z) (mvc smv : Z -> Z) ops s,
   wf s -> valid (abs s) ops = true ->
-  ((forall v, smv v = v) \/ forallb (fun o => negb (zero_insert o)) ops = true) ->
   let d := destroy_all (run mva mvc smv s ops) in err d = false /\ nctor d = ndtor d /\ forall j, cells d j = Raw.
 Proof. exact rv_ctor_dtor_balance. Qed.
 Print Assumptions c12_ctor_dtor_balance.
@@ -95,7 +89,6 @@ Print Assumptions c12_ctor_dtor_balance.
       constructed so far) *)
 Theorem c12_manager_cycle : forall (mva : Z -> Z -> Z) (mvc smv : Z -> Z) g ops,
   wf (inst g) -> valid (abs (inst g)) ops = true ->
-  ((forall v, smv v = v) \/ forallb (fun o => negb (zero_insert o)) ops = true) ->
   let w := run mva mvc smv (inst g) ops in let g' := mcycle mva mvc smv g ops in
   wf (inst g') /\ abs (inst g') = [] /\ csize w <= csize (inst g') /\ csize w <= cap (inst g') /\
   meta g <= meta g' /\ interval g' = interval g /\
@@ -112,14 +105,12 @@ Print Assumptions c12_manager_cycle.
       leaves behind *)
 Theorem c12_fits_no_alloc : forall (mva : Z -> Z -> Z) (mvc smv : Z -> Z) ops s,
   wf s -> valid (abs s) ops = true ->
-  ((forall v, smv v = v) \/ forallb (fun o => negb (zero_insert o)) ops = true) ->
   peak (abs s) ops <= cap s -> nalloc (run mva mvc smv s ops) = nalloc s /\ cap (run mva mvc smv s ops) = cap s.
 Proof. exact rv_fits_no_alloc. Qed.
 Print Assumptions c12_fits_no_alloc.
 
 Theorem c12_peak_le_capacity : forall (mva : Z -> Z -> Z) (mvc smv : Z -> Z) ops s,
   wf s -> valid (abs s) ops = true ->
-  ((forall v, smv v = v) \/ forallb (fun o => negb (zero_insert o)) ops = true) ->
   peak (abs s) ops <= cap (run mva mvc smv s ops).
 Proof. exact rv_peak_le_cap. Qed.
 Print Assumptions c12_peak_le_capacity.
@@ -128,19 +119,11 @@ Print Assumptions c12_peak_le_capacity.
    for every workload, after a rebuild for every workload that does not reserve beyond what it constructs *)
 Theorem c12_converged_no_growth : forall (mva : Z -> Z -> Z) (mvc smv : Z -> Z) g ops,
   wf (inst g) -> abs (inst g) = [] -> valid [] ops = true ->
-  ((forall v, smv v = v) \/ forallb (fun o => negb (zero_insert o)) ops = true) ->
   let g1 := mcycle mva mvc smv g ops in
   (recreated g1 = recreated g \/ reserve_free ops = true) ->
   nalloc (run mva mvc smv (inst g1) ops) = nalloc (inst g1) /\ cap (run mva mvc smv (inst g1) ops) = cap (inst g1).
 Proof. exact converged_no_growth. Qed.
 Print Assumptions c12_converged_no_growth.
-
-(* 7. the full-strength refinement (no side condition on zero-length inserts) is false of the code *)
-Theorem c12_zero_insert_refuted : exists (smv : Z -> Z) (ops : list op),
-  valid [] ops = true /\
-  abs (run (fun _ _ => 0%Z) (fun _ => 0%Z) smv empty_vec ops) <> fold_left spec_step ops [].
-Proof. exact zero_insert_refuted. Qed.
-Print Assumptions c12_zero_insert_refuted.
 
 (* non-vacuity: the empty vector is well formed; a concrete run exercises the reuse window (constructed > size),
    shifts by move-assignment and reconstructs in place *)
@@ -153,3 +136,7 @@ Example c12_window :
 Proof. exact window_example. Qed.
 Example c12_valid_example : valid [] [AssignRange [1;2;3;4;5]%Z; Erase 2 5; InsertN 1 2 9%Z; Reserve 20; Clear; PushBack 3%Z] = true.
 Proof. reflexivity. Qed.
+Example c12_zero_insert_noop :
+  abs (run (fun _ _ => 0%Z) (fun _ => 0%Z) (fun _ => 0%Z) empty_vec [AssignRange [1; 2; 3]%Z; InsertN 1 0 9%Z; InsertRange 0 []])
+  = [1; 2; 3]%Z.
+Proof. exact zero_insert_example. Qed.
